@@ -29,6 +29,8 @@
 #include <util/strencodings.h>
 #include <util/translation.h>
 
+#include <fstream>
+
 namespace {
 using valtype = std::vector<unsigned char>;
 const CAmount AMOUNT = 50000;
@@ -211,7 +213,19 @@ struct RunState {
 };
 
 struct Outcome { bool complete, verifies; };
+Outcome run_sign_inner(const Parsed& p, const RunState& st, bool via_sign_transaction);
+// An exception escaping the signer (e.g. its internal consistency checks) on an in-scope input is reported as a violation.
 Outcome run_sign(const Parsed& p, const RunState& st, bool via_sign_transaction)
+{
+    try {
+        return run_sign_inner(p, st, via_sign_transaction);
+    } catch (const std::exception& e) {
+        std::string d = p.desc->ToString();
+        vx::violation("signer-exception|" + d, std::string("exception escaped the signing code: ") + e.what() + " | " + d + " | " + st.str(), d + " | " + st.str());
+        return {false, false};
+    }
+}
+Outcome run_sign_inner(const Parsed& p, const RunState& st, bool via_sign_transaction)
 {
     FlatSigningProvider prov = p.pubprov;
     for (int i = 0; i < NKEYS; i++) {
@@ -274,6 +288,26 @@ int main(int argc, char** argv)
     const bool big = vx::thorough();
     ECC_Context ecc;
     init_keys();
+    if (!vx::ctx().replay.empty()) {
+        // replay: "<descriptor> | keys=apw... h1=.. h2=.. nLockTime=.. nSequence=.. [| SignTransaction]"
+        std::ifstream f(vx::ctx().replay);
+        std::string line;
+        while (std::getline(f, line)) {
+            if (line.empty() || line[0] == '#') continue;
+            size_t bar = line.find(" | ");
+            if (bar == std::string::npos) continue;
+            auto p = parse_desc(line.substr(0, bar));
+            if (!p) { printf("replay: descriptor does not parse\n"); return 2; }
+            RunState st;
+            size_t kp = line.find("keys=");
+            for (int i = 0; i < NKEYS; i++) { char c = line[kp + 5 + i]; st.key[i] = c == 'p' ? PRESENT : c == 'w' ? WRONG : ABSENT; }
+            auto num = [&](const char* k) { size_t a = line.find(k); return a == std::string::npos ? 0ul : strtoul(line.c_str() + a + strlen(k), nullptr, 10); };
+            st.h1 = (int)num("h1="); st.h2 = (int)num("h2="); st.locktime = (uint32_t)num("nLockTime="); st.sequence = (uint32_t)num("nSequence=");
+            Outcome o = run_sign(*p, st, line.find("SignTransaction") != std::string::npos);
+            printf("replay %s\n  complete=%d verifies=%d\n", line.c_str(), o.complete, o.verifies);
+        }
+        return 0;
+    }
 
     // ---------------------------------------------------------------- generate expressions
     std::vector<Expr> exprs;
